@@ -31,7 +31,8 @@ type WriteRec struct {
 	Seq   uint64
 	Start int // offset in the write log
 	N     int
-	At    time.Duration // fake time since run start
+	At    time.Duration // fake time since run start (when Write was entered)
+	End   time.Duration // fake time at which Write returned
 	Err   string
 }
 
@@ -216,6 +217,7 @@ func (c *SimConn) Write(p []byte) (int, error) {
 			}
 			c.wlog = append(c.wlog, p[k:]...)
 			rec.N = len(p)
+			rec.End = time.Since(c.start)
 			c.Writes = append(c.Writes, rec)
 			c.mu.Unlock()
 			c.e.Poke()
@@ -233,6 +235,7 @@ func (c *SimConn) Write(p []byte) (int, error) {
 				err = errors.New("sim: plain write error")
 			}
 			rec.Err = err.Error()
+			rec.End = rec.At
 			c.Writes = append(c.Writes, rec)
 			c.mu.Unlock()
 			c.e.Fault("write-" + f.Kind)
@@ -242,6 +245,7 @@ func (c *SimConn) Write(p []byte) (int, error) {
 	}
 	c.wlog = append(c.wlog, p...)
 	rec.N = len(p)
+	rec.End = rec.At
 	c.Writes = append(c.Writes, rec)
 	c.mu.Unlock()
 	c.e.Poke()
